@@ -28,6 +28,11 @@ def families(tier, seed):
         if (k + 1) % step == 0:
             cfgs.append(("param3-desc", graphgen.graph_cfg(0, set(), n_params=3, param_edges=es, order="desc", param_sep="://")))
             cfgs.append(("svc3-desc", graphgen.graph_cfg(3, es, order="desc")))
+    # the same edges written in calls (after a call without arguments), fields and withers instead of constructor arguments
+    for k, es in enumerate(graphgen.all_digraphs(3)):
+        if (k + 1) % (step * 2) == 0:
+            for st_ in ("calls", "fields", "wither"):
+                cfgs.append(("svc3-" + st_, graphgen.graph_cfg(3, es, edge_style=st_)))
     # references to undeclared services before / after the edge that closes a cycle (decided with --ignore-missing-services too)
     rg = random.Random("%s/c07ghost" % seed)
     for k, es in enumerate(graphgen.all_digraphs(3)):
